@@ -1224,3 +1224,529 @@ return buffers"""
             "   feed re-raised, the keep-alive commands issued *)\n"
             "Definition py_watchdog_feed (max_failures clear_period : N) (v : N) (failures feeds : N) (a1 a2 : ans)\n"
             "  : N * N * bool * list kcmd :=\n  let cmds := @nil kcmd in\n" + textwrap.indent(term, "  ") + ".\n")
+
+
+# ==================================================================================================
+# EZSP bring-up (bellows/ezsp/__init__.py): startup_reset / reset / version / _switch_protocol_version / _command /
+# start_ezsp / stop_ezsp / connect / __init__.  Coroutines: the outcome of every await is an oracle parameter of the
+# emitted function (the value a command returns -- for `version` the protocol version the NCP reports --, a time-out,
+# another exception); the effects are the gateway reset handshake, the wait for a spontaneous start-up reset, the
+# construction of a protocol handler object and every command (name, argument, VERSION of the handler object whose
+# bound method was called).  A method may raise: every emitted function returns (state, ORet value | OExn exception)
+# and a call site continues with the rest of the block or with the enclosing `except` / the caller.
+#
+# Supported subset (anything else raises GenError):
+#   statements   docstrings / LOGGER calls (dropped); `self._ezsp_version = e`; `<local> = e`;
+#                `self._protocol = self._BY_VERSION[e](self.handle_callback, self._gw)` (dict lookup: KeyError);
+#                `self._protocol = <module>.<Class>(self.handle_callback, self._gw)`; `self._ezsp_event.set()/.clear()`;
+#                `command = getattr(self._protocol, name)`; `return await command(*args, **kwargs)`;
+#                `[x, _, _ =] await self._command("<name>", <key>=e)`; `[await] self.<translated method>(e, ...)`;
+#                `await self._gw.reset()`; `await self._gw.wait_for_startup_reset()`;
+#                `async with asyncio_timeout(<int constant>): ...`; `try: ... except asyncio.TimeoutError: ... [else: ...]`;
+#                `if/elif/else`; `raise EzspError(...)`; `pass`; `return`
+#   expressions  int literals, locals, int constants of the module (EZSP_LATEST, v4.EZSPv4.VERSION: emitted as named
+#                definitions with the live value), `self._ezsp_version`, properties of EZSP whose getter is a single
+#                `return e` (inlined), `self._ezsp_event.is_set()`, == != < <= > >=, `[not] in self._BY_VERSION`,
+#                not / and / or; `self.is_tcp_serial_port` is a parameter (it depends on the device path only)
+# ==================================================================================================
+BU_STATE = ["ezsp_v", "handler", "running", "eff"]
+BU_S = ", ".join(BU_STATE)
+BU_NO_HANDLER = 0       # self._protocol is None (no protocol version 0 exists; checked)
+BU_EXN = {"asyncio.TimeoutError": "XTimeout", "EzspError": "XEzspError"}
+
+
+class BuTr:
+    """one method of EZSP over the state (self._ezsp_version, VERSION of self._protocol, self._ezsp_event is set,
+    effects so far).  `sigs` describes the methods translated so far: name -> (is_async, [(param, type)], [oracle kinds])"""
+
+    def __init__(self, where, ctx, sigs, is_async, extra):
+        self.where, self.ctx, self.sigs, self.is_async, self.extra = where, ctx, sigs, is_async, extra
+        self.sites = {}          # id(await node) -> oracle names
+        self.oracles = []        # (name, kind) in source order
+        self.timeout = None
+
+    def refuse(self, node, why="unsupported construct"):
+        src = ast.unparse(node) if isinstance(node, ast.AST) else str(node)
+        raise GenError(self.where, f"{why}: `{src[:100]}`")
+
+    # ---- await sites -> oracle parameters (by source position, not by visiting order of the translation) ----------
+    def await_kinds(self, call):
+        if not isinstance(call, ast.Call):
+            self.refuse(call, "await of something that is not a call")
+        f = ast.unparse(call.func)
+        if f == "self._gw.reset":
+            return ["r"]
+        if f == "self._gw.wait_for_startup_reset":
+            return ["w"]
+        if f == "command":
+            return ["a"]
+        if f.startswith("self.") and f[5:] in self.sigs:
+            if not self.sigs[f[5:]][0]:
+                self.refuse(call, "await of a synchronous method")
+            return list(self.sigs[f[5:]][2])
+        self.refuse(call, "await with no modelled outcome")
+
+    def scan_awaits(self, node):
+        tr = self
+        count = {}
+
+        class V(ast.NodeVisitor):
+            def visit_Await(s, n):
+                names = []
+                for k in tr.await_kinds(n.value):
+                    count[k] = count.get(k, 0) + 1
+                    names.append(f"{k}{count[k]}")
+                    tr.oracles.append((names[-1], k))
+                tr.sites[id(n)] = names
+                s.generic_visit(n)
+        V().visit(node)
+
+    # ---- expressions ------------------------------------------------------------------------------------------------
+    def const(self, e):
+        """an int constant of the module, by its dotted name; emitted as a named definition"""
+        dotted = ast.unparse(e)
+        obj = self.ctx["module"]
+        try:
+            for part in dotted.split("."):
+                obj = getattr(obj, part)
+        except AttributeError:
+            self.refuse(e, "unknown name")
+        if isinstance(obj, bool) or not isinstance(obj, int) or obj < 0:
+            self.refuse(e, "module constant that is not a non-negative int")
+        name = "py_" + dotted.replace(".", "_")
+        self.ctx["consts"][name] = int(obj)
+        return name
+
+    def prop(self, e, env, seen=()):
+        """self.<property>: the getter's `return e`, inlined"""
+        cls = self.ctx["cls"]
+        p = cls.__dict__.get(e.attr)
+        if not isinstance(p, property) or e.attr in seen:
+            return None
+        node = _fn_ast(p.fget)
+        body = _StripLogs().visit(node).body
+        if len(body) != 1 or not isinstance(body[0], ast.Return) or body[0].value is None:
+            raise GenError(f"EZSP.{e.attr} (source)", "the getter is not a single `return <expression>`")
+        save = self.where
+        self.where = f"EZSP.{e.attr} (source)"
+        out = self.ex(body[0].value, {}, seen + (e.attr,))
+        self.where = save
+        return out
+
+    def ex(self, e, env, seen=()):
+        """(term, type) with type in N | bool | string"""
+        if isinstance(e, ast.Constant):
+            if isinstance(e.value, bool):
+                return ("true" if e.value else "false"), "bool"
+            if isinstance(e.value, int) and e.value >= 0:
+                return str(e.value), "N"
+            if isinstance(e.value, str) and '"' not in e.value:
+                return f'"{e.value}"%string', "string"
+            self.refuse(e, "constant")
+        if isinstance(e, ast.Name):
+            if e.id in env:
+                if env[e.id] not in ("N", "bool", "string"):
+                    self.refuse(e, f"use of a value that is not modelled ({env[e.id]})")
+                return f"l_{e.id}", env[e.id]
+            return self.const(e), "N"
+        if isinstance(e, ast.Attribute):
+            src = ast.unparse(e)
+            if src == "self._ezsp_version":
+                return "ezsp_v", "N"
+            if src == "self.is_tcp_serial_port" and "tcp" in self.extra:
+                return "tcp", "bool"
+            if isinstance(e.value, ast.Name) and e.value.id == "self":
+                p = self.prop(e, env, seen)
+                if p is None:
+                    self.refuse(e, "attribute of self that is not modelled")
+                return p
+            return self.const(e), "N"
+        if isinstance(e, ast.Call) and ast.unparse(e) == "self._ezsp_event.is_set()":
+            return "running", "bool"
+        if isinstance(e, ast.UnaryOp) and isinstance(e.op, ast.Not):
+            return f"(negb {self.cond(e.operand, env, seen)})", "bool"
+        if isinstance(e, ast.BoolOp):
+            op = " && " if isinstance(e.op, ast.And) else " || "
+            return "(" + op.join(self.cond(v, env, seen) for v in e.values) + ")", "bool"
+        if isinstance(e, ast.Compare):
+            if len(e.ops) != 1:
+                self.refuse(e, "chained comparison")
+            op, rhs = e.ops[0], e.comparators[0]
+            if isinstance(op, (ast.In, ast.NotIn)):
+                if ast.unparse(rhs) != "self._BY_VERSION":
+                    self.refuse(e, "membership in something other than self._BY_VERSION")
+                t = f"(py_in {self.num(e.left, env, seen)} py_BY_VERSION_keys)"
+                return (t if isinstance(op, ast.In) else f"(negb {t})"), "bool"
+            a, b = self.num(e.left, env, seen), self.num(rhs, env, seen)
+            forms = {ast.Eq: f"({a} =? {b})", ast.NotEq: f"(negb ({a} =? {b}))", ast.Lt: f"({a} <? {b})", ast.LtE: f"({a} <=? {b})",
+                     ast.Gt: f"({b} <? {a})", ast.GtE: f"({b} <=? {a})"}
+            if type(op) not in forms:
+                self.refuse(e, "comparison operator")
+            return forms[type(op)], "bool"
+        self.refuse(e)
+
+    def num(self, e, env, seen=()):
+        t, ty = self.ex(e, env, seen)
+        if ty != "N":
+            self.refuse(e, "expected an integer")
+        return t
+
+    def cond(self, e, env, seen=()):
+        t, ty = self.ex(e, env, seen)
+        if ty != "bool":
+            self.refuse(e, "expected a boolean (truthiness of other values is not translated)")
+        return t
+
+    # ---- exceptions ---------------------------------------------------------------------------------------------------
+    def throw(self, exn, hs, env, dynamic=False):
+        """hs: stack of (set of caught exceptions, continuation of the handler)"""
+        if not hs:
+            return f"({BU_S}, OExn {exn})"
+        catch, hk = hs[-1]
+        if not dynamic:
+            return hk(env) if exn in catch else self.throw(exn, hs[:-1], env)
+        arms = " | ".join(sorted(catch))
+        return (f"match {exn} with\n| {arms} =>\n{textwrap.indent(hk(env), '    ')}\n| _ =>\n"
+                f"{textwrap.indent(self.throw(exn, hs[:-1], env, True), '    ')}\nend")
+
+    def awaited(self, oracle, k_val, hs, env):
+        """the outcome of an await of something outside the translated methods"""
+        return (f"match {oracle} with\n| AVal v =>\n{textwrap.indent(k_val, '    ')}\n"
+                f"| ATimeoutError =>\n{textwrap.indent(self.throw('XTimeout', hs, env), '    ')}\n"
+                f"| AOtherError =>\n{textwrap.indent(self.throw('XOther', hs, env), '    ')}\nend")
+
+    # ---- calls of translated methods ----------------------------------------------------------------------------------
+    def call(self, c, awaited, site, env):
+        """Gallina application for self.<method>(...) -> term"""
+        name = ast.unparse(c.func)[5:]
+        is_async, params, kinds = self.sigs[name]
+        if is_async != awaited:
+            self.refuse(c, "coroutine called without await" if is_async else "await of a synchronous method")
+        if name == "_command":
+            # self._command("<name>", <the command's single request field>=e)
+            if len(c.args) != 1 or not (isinstance(c.args[0], ast.Constant) and isinstance(c.args[0].value, str)) or len(c.keywords) != 1:
+                self.refuse(c, "command call form")
+            cmd, kw = c.args[0].value, c.keywords[0]
+            for v, pcls in self.ctx["by_version"]:
+                tx = pcls.COMMANDS.get(cmd, (None, None, None))[1]
+                if not isinstance(tx, dict) or list(tx) != [kw.arg]:
+                    self.refuse(c, f"EZSPv{v}.COMMANDS[{cmd!r}] does not take exactly the field {kw.arg}")
+            self.ctx["commands"].add(cmd)
+            args = [f'"{cmd}"%string', self.num(kw.value, env)]
+        else:
+            if c.keywords or len(c.args) != len(params):
+                self.refuse(c, "arguments")
+            args = []
+            for a, (_, ty) in zip(c.args, params):
+                t, got = self.ex(a, env)
+                if got != ty:
+                    self.refuse(a, f"argument type {got}, expected {ty}")
+                args.append(t)
+        names = self.sites[site] if awaited else []
+        if len(names) != len(kinds):
+            self.refuse(c, "await outcomes")
+        return " ".join([f"py_EZSP_{name}_k ({BU_S})"] + args + names)
+
+    def after_call(self, app, bind, k, hs, env):
+        ok = (f"let l_{bind} := v in\n" if bind else "") + k(dict(env, **({bind: "N"} if bind else {})))
+        return (f"let '({BU_S}, out) := {app} in\nmatch out with\n| OExn e =>\n{textwrap.indent(self.throw('e', hs, env, True), '    ')}\n"
+                f"| ORet v =>\n{textwrap.indent(ok, '    ')}\nend")
+
+    # ---- statements (continuation style) --------------------------------------------------------------------------------
+    def seq(self, body, k, hs, env):
+        if not body:
+            return k(env)
+        s, rest = body[0], body[1:]
+
+        def nxt(env2):
+            return self.seq(rest, k, hs, env2)
+        src = ast.unparse(s)
+        if isinstance(s, ast.Pass):
+            return nxt(env)
+        if isinstance(s, ast.Return):
+            if s.value is None:
+                return f"({BU_S}, ORet 0)"
+            # return await command(*args, **kwargs)
+            if isinstance(s.value, ast.Await) and _dump(ast.unparse(s.value.value)) == _dump("command(*args, **kwargs)") \
+                    and env.get("command") == "handler" and env.get("args") == "argv" and env.get("kwargs") == "argv":
+                (o,) = self.sites[id(s.value)]
+                return (f"let eff := eff ++ [BCommand l_name l_arg l_command] in\n"
+                        + self.awaited(o, f"({BU_S}, ORet v)", hs, env))
+            self.refuse(s, "return value")
+        if isinstance(s, ast.Raise):
+            if isinstance(s.exc, ast.Call) and ast.unparse(s.exc.func) in BU_EXN and s.cause is None:
+                return self.throw(BU_EXN[ast.unparse(s.exc.func)], hs, env)
+            self.refuse(s, "raise")
+        if isinstance(s, ast.If):
+            a = self.seq(list(s.body), nxt, hs, env)
+            b = self.seq(list(s.orelse), nxt, hs, env)
+            return f"if {self.cond(s.test, env)} then\n{textwrap.indent(a, '  ')}\nelse\n{textwrap.indent(b, '  ')}"
+        if isinstance(s, ast.Try):
+            if s.finalbody or len(s.handlers) != 1 or s.handlers[0].name is not None or s.handlers[0].type is None \
+                    or ast.unparse(s.handlers[0].type) not in BU_EXN:
+                self.refuse(s, "try form")
+            caught = {BU_EXN[ast.unparse(s.handlers[0].type)]}
+            hbody = list(s.handlers[0].body)
+            # exceptions of the handler and of the else block are not caught by this try
+            hs2 = hs + [(caught, lambda env2: self.seq(hbody, nxt, hs, env2))]
+            return self.seq(list(s.body), lambda env2: self.seq(list(s.orelse), nxt, hs, env2), hs2, env)
+        if isinstance(s, ast.AsyncWith):
+            if len(s.items) != 1 or s.items[0].optional_vars is not None or not self.is_async:
+                self.refuse(s, "async with form")
+            ce = s.items[0].context_expr
+            if not (isinstance(ce, ast.Call) and ast.unparse(ce.func) == "asyncio_timeout" and len(ce.args) == 1 and not ce.keywords) \
+                    or self.timeout is not None:
+                self.refuse(s, "context manager")
+            limit = self.const(ce.args[0])
+            self.timeout = limit
+
+            def leave(env2):
+                self.timeout = None
+                return nxt(env2)
+            try:
+                return self.seq(list(s.body), leave, hs, env)
+            finally:
+                self.timeout = None
+        if isinstance(s, ast.Assign):
+            if len(s.targets) != 1:
+                self.refuse(s, "assignment")
+            tgt, val = s.targets[0], s.value
+            tsrc = ast.unparse(tgt)
+            if tsrc == "self._ezsp_version":
+                return f"let ezsp_v := {self.num(val, env)} in\n{nxt(env)}"
+            if tsrc == "self._protocol":
+                if not (isinstance(val, ast.Call) and not val.keywords and [ast.unparse(a) for a in val.args] == ["self.handle_callback", "self._gw"]):
+                    self.refuse(s, "protocol handler construction")
+                ctor = val.func
+                if isinstance(ctor, ast.Subscript) and ast.unparse(ctor.value) == "self._BY_VERSION":
+                    key = self.num(ctor.slice, env)
+                    ok = f"let handler := cv in\nlet eff := eff ++ [BNewHandler cv] in\n{nxt(env)}"
+                    return (f"match py_get {key} py_BY_VERSION with\n| Some cv =>\n{textwrap.indent(ok, '    ')}\n"
+                            f"| None =>\n{textwrap.indent(self.throw('XKeyError', hs, env), '    ')}\nend")
+                obj = self.ctx["module"]
+                try:
+                    for part in ast.unparse(ctor).split("."):
+                        obj = getattr(obj, part)
+                except AttributeError:
+                    self.refuse(s, "unknown class")
+                if not (isinstance(obj, type) and issubclass(obj, self.ctx["handler_base"])):
+                    self.refuse(s, "not a protocol handler class")
+                cv = self.const(ast.Attribute(value=ctor, attr="VERSION", ctx=ast.Load()))
+                return f"let handler := {cv} in\nlet eff := eff ++ [BNewHandler {cv}] in\n{nxt(env)}"
+            if isinstance(tgt, ast.Name):
+                # command = getattr(self._protocol, name): the bound method of the handler object in use
+                if _dump(src) == _dump("command = getattr(self._protocol, name)") and env.get("name") == "string":
+                    body2 = nxt(dict(env, command="handler"))
+                    return (f"if handler =? {BU_NO_HANDLER} then\n{textwrap.indent(self.throw('XNoHandler', hs, env), '  ')}\nelse\n"
+                            f"  let l_command := handler in\n{textwrap.indent(body2, '  ')}")
+                if env.get(tgt.id, "N") != "N":
+                    self.refuse(s, "variable changes type")
+                return f"let l_{tgt.id} := {self.num(val, env)} in\n{nxt(dict(env, **{tgt.id: 'N'}))}"
+            if isinstance(tgt, ast.Tuple) and all(isinstance(x, ast.Name) for x in tgt.elts) and isinstance(val, ast.Await) \
+                    and isinstance(val.value, ast.Call) and ast.unparse(val.value.func) == "self._command":
+                app = self.call(val.value, True, id(val), env)
+                cmd = val.value.args[0].value
+                # the first response field is the value the oracle stands for; the others must stay unused
+                first = tgt.elts[0].id
+                for v, pcls in self.ctx["by_version"]:
+                    rx = pcls.COMMANDS[cmd][2]
+                    if not isinstance(rx, dict) or len(rx) != len(tgt.elts):
+                        self.refuse(s, f"EZSPv{v}.COMMANDS[{cmd!r}] does not answer with {len(tgt.elts)} fields")
+                    self.ctx["answers"].setdefault(cmd, set()).add(list(rx)[0])
+                env2 = dict(env, **{x.id: "an unmodelled response field" for x in tgt.elts[1:]})
+                return self.after_call(app, first, nxt, hs, env2)
+            self.refuse(s, "assignment")
+        if isinstance(s, ast.Expr):
+            v = s.value
+            awaited = isinstance(v, ast.Await)
+            c = v.value if awaited else v
+            if not isinstance(c, ast.Call):
+                self.refuse(s)
+            f = ast.unparse(c.func)
+            if awaited and not self.is_async:
+                self.refuse(s, "await in a synchronous method")
+            if f in ("self._ezsp_event.set", "self._ezsp_event.clear") and not awaited and not c.args and not c.keywords:
+                b = "true" if f.endswith(".set") else "false"
+                return f"let running := {b} in\nlet eff := eff ++ [BRunning {b}] in\n{nxt(env)}"
+            if awaited and f == "self._gw.reset" and not c.args and not c.keywords:
+                (o,) = self.sites[id(v)]
+                return f"let eff := eff ++ [BReset] in\n{self.awaited(o, nxt(env), hs, env)}"
+            if awaited and f == "self._gw.wait_for_startup_reset" and not c.args and not c.keywords:
+                (o,) = self.sites[id(v)]
+                lim = f"(Some {self.timeout})" if self.timeout else "None"
+                return f"let eff := eff ++ [BWaitStartupReset {lim}] in\n{self.awaited(o, nxt(env), hs, env)}"
+            if f.startswith("self.") and f[5:] in self.sigs:
+                return self.after_call(self.call(c, awaited, id(v), env), None, nxt, hs, env)
+            self.refuse(s, "call with no modelled effect")
+        self.refuse(s)
+
+
+def _bu_method(ctx, sigs, name, want, params, extra=()):
+    """translate EZSP.<name>; `params`: [(python parameter, emitted name, type)]"""
+    cls = ctx["cls"]
+    fn = cls.__dict__[name]
+    src = textwrap.dedent(inspect.getsource(fn))
+    node = ast.parse(src).body[0]
+    is_async = isinstance(node, ast.AsyncFunctionDef)
+    where = f"EZSP.{name} (source)"
+    if node.decorator_list:
+        raise GenError(where, "decorated")
+    a = node.args
+    got = [x.arg for x in a.posonlyargs + a.args] + (["*" + a.vararg.arg] if a.vararg else []) \
+        + [x.arg for x in a.kwonlyargs] + (["**" + a.kwarg.arg] if a.kwarg else [])
+    if got != ["self"] + want or a.defaults or any(d is not None for d in a.kw_defaults):
+        raise GenError(where, f"parameters {got}, expected {['self'] + want}")
+    tr = BuTr(where, ctx, sigs, is_async, extra)
+    node = _StripLogs().visit(node)
+    tr.scan_awaits(node)
+    env = {}
+    sig = []
+    for py, _coq, ty in params:
+        env[py] = ty
+    if name == "_command":
+        env.update(name="string", args="argv", kwargs="argv")
+        sig = [("l_name", "string"), ("l_arg", "N")]
+    else:
+        sig = [(f"l_{py}", {"N": "N"}[ty]) for py, _coq, ty in params]
+    sig += [(x, "bool") for x in extra]
+    term = tr.seq(list(node.body), lambda env2: f"({BU_S}, ORet 0)", [], env)
+    args = "".join(f" ({n} : {t})" for n, t in sig) + "".join(f" ({o} : await_ans)" for o, _ in tr.oracles)
+    sigs[name] = (is_async, [(py, ty) for py, _c, ty in params] + [(x, "bool") for x in extra], [k for _, k in tr.oracles])
+    return (f"(* from the source of EZSP.{name} *)\n"
+            f"Definition py_EZSP_{name}_k (s : bu_state){args} : bu_result :=\n"
+            f"  let '({BU_S}) := s in\n{textwrap.indent(term, '  ')}.\n\n")
+
+
+def gen_bringup_fn() -> str:
+    import bellows.ezsp as E
+    import bellows.ezsp.protocol as P
+    cls = E.EZSP
+    by_version = [(int(k), v) for k, v in cls._BY_VERSION.items()]
+    for k, pcls in by_version:
+        if isinstance(k, bool) or not (isinstance(pcls, type) and issubclass(pcls, P.ProtocolHandler)) or not isinstance(pcls.VERSION, int) \
+                or int(pcls.VERSION) == BU_NO_HANDLER or k == BU_NO_HANDLER:
+            raise GenError("EZSP._BY_VERSION", f"entry {k!r}: {pcls!r}")
+    if isinstance(E.EZSP_LATEST, bool) or not isinstance(E.EZSP_LATEST, int):
+        raise GenError("bellows.ezsp.EZSP_LATEST", f"not an int: {E.EZSP_LATEST!r}")
+    ctx = {"module": E, "cls": cls, "consts": {"py_EZSP_LATEST": int(E.EZSP_LATEST)}, "by_version": by_version, "commands": set(), "answers": {}, "handler_base": P.ProtocolHandler}
+    sigs = {}
+    fns = []
+    fns.append(_bu_method(ctx, sigs, "stop_ezsp", [], []))
+    fns.append(_bu_method(ctx, sigs, "start_ezsp", [], []))
+    fns.append(_bu_method(ctx, sigs, "_switch_protocol_version", ["version"], [("version", "version", "N")]))
+    fns.append(_bu_method(ctx, sigs, "_command", ["name", "*args", "**kwargs"], []))
+    fns.append(_bu_method(ctx, sigs, "version", [], []))
+    fns.append(_bu_method(ctx, sigs, "reset", [], []))
+    fns.append(_bu_method(ctx, sigs, "startup_reset", [], [], extra=("tcp",)))
+    # the commands issued: their id is the same in every handler class, the oracle stands for the first response field
+    if ctx["commands"] != {"version"} or ctx["answers"] != {"version": {"protocolVersion"}}:
+        raise GenError("EZSP bring-up", f"commands issued {sorted(ctx['commands'])}, answers read {ctx['answers']}")
+    ids = {int(pcls.COMMANDS["version"][0]) for _, pcls in by_version}
+    if len(ids) != 1:
+        raise GenError("COMMANDS['version']", f"different ids {sorted(ids)}")
+    # ---- connect: the handler in use before the first negotiation; __init__: the state before connect ----------------
+    node = _StripLogs().visit(_fn_ast_async(cls.__dict__["connect"]))
+    body = list(node.body)
+    want = ["assert self._gw is None", "self._gw = await bellows.uart.connect(self._config, self, use_thread=use_thread)"]
+    if len(body) != 3 or [_dump(ast.unparse(s)) for s in body[:2]] != [_dump(w) for w in want]:
+        raise GenError("EZSP.connect (source)", "expected `assert self._gw is None; self._gw = await bellows.uart.connect(...); "
+                       "self._protocol = <handler class>(...)`:\n" + "\n".join(ast.unparse(s) for s in body))
+    tr = BuTr("EZSP.connect (source)", ctx, sigs, True, ())
+    term = tr.seq(body[2:], lambda env2: f"({BU_S}, ORet 0)", [], {})
+    fns.append("(* from the source of EZSP.connect (after `self._gw = await bellows.uart.connect(...)`, whose failure leaves no object) *)\n"
+               f"Definition py_EZSP_connect_k (s : bu_state) : bu_result :=\n  let '({BU_S}) := s in\n{textwrap.indent(term, '  ')}.\n\n")
+    init = _StripLogs().visit(_fn_ast(cls.__dict__["__init__"]))
+    found = {}
+    for n in ast.walk(init):
+        tgts = n.targets if isinstance(n, ast.Assign) else [n.target] if isinstance(n, (ast.AugAssign, ast.AnnAssign)) else []
+        for tg in tgts:
+            for x in ast.walk(tg):
+                if isinstance(x, ast.Attribute) and ast.unparse(x) in ("self._ezsp_version", "self._protocol", "self._ezsp_event"):
+                    if ast.unparse(x) in found or n not in init.body or not isinstance(n, ast.Assign) or len(n.targets) != 1 or x is not tg:
+                        raise GenError("EZSP.__init__ (source)", f"`{ast.unparse(n)}`: expected one plain top-level assignment of {ast.unparse(x)}")
+                    found[ast.unparse(x)] = n.value
+    if set(found) != {"self._ezsp_version", "self._protocol", "self._ezsp_event"}:
+        raise GenError("EZSP.__init__ (source)", f"assignments found: {sorted(found)}")
+    tr = BuTr("EZSP.__init__ (source)", ctx, sigs, False, ())
+    v0 = tr.num(found["self._ezsp_version"], {})
+    if not (isinstance(found["self._protocol"], ast.Constant) and found["self._protocol"].value is None):
+        tr.refuse(found["self._protocol"], "initial protocol handler")
+    if ast.unparse(found["self._ezsp_event"]) != "asyncio.Event()":
+        tr.refuse(found["self._ezsp_event"], "initial event")
+    # no other method of the class replaces the handler, changes the version or sets / clears the event
+    writers = {"_ezsp_version": {"__init__", "_switch_protocol_version"}, "_protocol": {"__init__", "connect", "_switch_protocol_version"},
+               "_ezsp_event": {"__init__", "start_ezsp", "stop_ezsp"}}
+    cnode = ast.parse(textwrap.dedent(inspect.getsource(cls))).body[0]
+    for m in cnode.body:
+        if not isinstance(m, (ast.FunctionDef, ast.AsyncFunctionDef)):
+            continue
+        for n in ast.walk(m):
+            if isinstance(n, ast.Attribute) and isinstance(n.value, ast.Name) and n.value.id == "self" and n.attr in writers:
+                stored = isinstance(n.ctx, (ast.Store, ast.Del))
+                if n.attr == "_ezsp_event":
+                    stored = True       # any use other than is_set() in the property
+                    if m.name == "is_ezsp_running":
+                        stored = False
+                if stored and m.name not in writers[n.attr]:
+                    raise GenError(f"EZSP.{m.name} (source)", f"writes self.{n.attr}, which only {sorted(writers[n.attr])} are translated to do")
+            if isinstance(n, ast.Call) and ast.unparse(n.func) in ("setattr", "delattr", "vars") or \
+                    (isinstance(n, ast.Attribute) and n.attr == "__dict__"):
+                raise GenError(f"EZSP.{m.name} (source)", "indirect attribute access")
+    # ---- the handler object's sequence number (bellows/ezsp/protocol.py): initial value, successor, frame built first ---
+    hinit = _StripLogs().visit(_fn_ast(P.ProtocolHandler.__dict__["__init__"]))
+    seq_init = [n for n in ast.walk(hinit) if isinstance(n, (ast.Assign, ast.AugAssign)) and "self._seq" in
+                [ast.unparse(t) for t in (n.targets if isinstance(n, ast.Assign) else [n.target])]]
+    if len(seq_init) != 1 or seq_init[0] not in hinit.body or not isinstance(seq_init[0], ast.Assign) \
+            or not isinstance(seq_init[0].value, ast.Constant) or type(seq_init[0].value.value) is not int or seq_init[0].value.value < 0:
+        raise GenError("ProtocolHandler.__init__ (source)", "expected one top-level `self._seq = <int>`")
+    hcmd = _StripLogs().visit(_fn_ast_async(P.ProtocolHandler.__dict__["command"]))
+    seq_sets = [n for n in ast.walk(hcmd) if isinstance(n, (ast.Assign, ast.AugAssign)) and "self._seq" in
+                [ast.unparse(t) for t in (n.targets if isinstance(n, ast.Assign) else [n.target])]]
+    if len(seq_sets) != 1 or not isinstance(seq_sets[0], ast.Assign) or len(seq_sets[0].targets) != 1:
+        raise GenError("ProtocolHandler.command (source)", "expected exactly one assignment of self._seq")
+    blocks = [n.body for n in ast.walk(hcmd) if isinstance(getattr(n, "body", None), list) and seq_sets[0] in n.body]
+    blk = blocks[0]
+    i = blk.index(seq_sets[0])
+    before = [ast.unparse(x) for x in blk[:i]]
+    if "data = self._ezsp_frame(name, *args, **kwargs)" not in before:
+        raise GenError("ProtocolHandler.command (source)", "the frame is no longer built before the sequence number advances (same block)")
+    mt = MethodTr("ProtocolHandler.command (source)", {}, {"seq": "N"}, [])
+    seq_next = mt.ex(ast.parse(ast.unparse(seq_sets[0].value).replace("self._seq", "seq"), mode="eval").body)
+    for c in (P.ProtocolHandler,) + tuple(p for _, p in by_version):
+        for klass in c.__mro__:
+            if klass is not P.ProtocolHandler and ("command" in klass.__dict__ or "_seq" in klass.__dict__ or "_ezsp_frame" in klass.__dict__):
+                raise GenError(f"{klass.__name__}", "overrides command / _ezsp_frame / _seq of ProtocolHandler")
+    consts = "".join(f"Definition {n} : N := {v}.\n" for n, v in sorted(ctx["consts"].items()))
+    head = ("(* GENERATED by harness/pysrc.py from the SOURCE TEXT of bellows/ezsp/__init__.py (EZSP bring-up) -- do not edit *)\n"
+            "From Coq Require Import NArith List Bool String.\nImport ListNotations.\nOpen Scope N_scope.\n\n"
+            "(* what a method may raise: asyncio.TimeoutError, EzspError, KeyError (dict lookup), AttributeError (getattr on None),\n"
+            "   any other exception out of an awaited call *)\n"
+            "Inductive bu_exn := XTimeout | XEzspError | XKeyError | XNoHandler | XOther.\n"
+            "(* the outcome of an await of something outside the translated methods: its value (for the command `version`: the\n"
+            "   first response field, protocolVersion), asyncio.TimeoutError, another exception *)\n"
+            "Inductive await_ans := AVal (v : N) | ATimeoutError | AOtherError.\n"
+            "Inductive bu_eff :=\n"
+            "| BReset                                  (* await self._gw.reset(): the ASH reset handshake *)\n"
+            "| BWaitStartupReset (limit : option N)    (* await self._gw.wait_for_startup_reset() [under asyncio_timeout(limit)] *)\n"
+            "| BNewHandler (version : N)               (* self._protocol = <handler class with this VERSION>(self.handle_callback, self._gw) *)\n"
+            "| BRunning (b : bool)                     (* self._ezsp_event.set() / .clear() *)\n"
+            "| BCommand (name : string) (arg handler : N).  (* await <handler object>.<name>(<field>=arg); handler = its VERSION *)\n"
+            "Inductive bu_out := ORet (v : N) | OExn (e : bu_exn).     (* returned (0 for None) | raised *)\n"
+            f"(* state: self._ezsp_version, VERSION of self._protocol ({BU_NO_HANDLER} = None), self._ezsp_event is set, effects so far *)\n"
+            "Definition bu_state := (N * N * bool * list bu_eff)%type.\n"
+            "Definition bu_result := (N * N * bool * list bu_eff * bu_out)%type.\n\n"
+            "Definition py_in (x : N) (keys : list N) : bool := existsb (N.eqb x) keys.\n"
+            "Fixpoint py_get (x : N) (d : list (N * N)) : option N :=\n"
+            "  match d with [] => None | (k, v) :: d' => if x =? k then Some v else py_get x d' end.\n\n"
+            "(* EZSP._BY_VERSION of the live class: key -> VERSION of the handler class stored under it, in dict order *)\n"
+            "Definition py_BY_VERSION : list (N * N) := [" + "; ".join(f"({k}, {int(p.VERSION)})" for k, p in by_version) + "].\n"
+            "Definition py_BY_VERSION_keys : list N := map fst py_BY_VERSION.\n"
+            "(* int constants of the live module the methods name *)\n" + consts +
+            f"(* COMMANDS[\"version\"][0], the same in every handler class; its request is the single field desiredProtocolVersion *)\n"
+            f"Definition py_version_cmd_id : N := {ids.pop()}.\n"
+            "(* ProtocolHandler.__init__: self._seq = ...; ProtocolHandler.command: the frame is built, then self._seq = ... *)\n"
+            f"Definition py_handler_seq_init : N := {seq_init[0].value.value}.\n"
+            f"Definition py_handler_seq_next (seq : N) : N := {seq_next}.\n\n"
+            f"(* from the source of EZSP.__init__: the assignments of _ezsp_version, _protocol (None), _ezsp_event (a new Event) *)\n"
+            f"Definition py_EZSP_init : bu_state := ({v0}, {BU_NO_HANDLER}, false, []).\n\n")
+    return head + "".join(fns)
